@@ -177,20 +177,28 @@ ClashMust(SA, SB, flt) == {x \in IdentsMust(SA) \cap IdentsMust(SB) : Pass(flt, 
 ClashMay(SA, SB, flt)  == {x \in IdentsMay(SA) \cap IdentsMay(SB) : Pass(flt, x)}
 
 DisClause(SA, SB, flt, SB2, sg) ==
-    LET dom == DOMAIN sg IN
+    LET dom  == DOMAIN sg
+        ma   == IdentsMust(SA)      \* LET values are evaluated once
+        mb   == IdentsMust(SB)
+        ya   == IdentsMay(SA)
+        yb   == IdentsMay(SB)
+        must == {x \in ma \cap mb : Pass(flt, x)}
+        may  == {x \in ya \cap yb : Pass(flt, x)}
+        rng  == Range(sg)
+    IN
     IF Len(SB2) # Len(SB) THEN "dis-length"
-    ELSE IF ~(ClashMust(SA, SB, flt) \subseteq dom) THEN "dis-clash-not-renamed"
+    ELSE IF ~(must \subseteq dom) THEN "dis-clash-not-renamed"
     ELSE IF \E x \in dom : ~Pass(flt, x) THEN "dis-filter-ignored"
-    ELSE IF ~(dom \subseteq ClashMay(SA, SB, flt)) THEN "dis-renamed-without-clash"
+    ELSE IF ~(dom \subseteq may) THEN "dis-renamed-without-clash"
     ELSE IF ~Injective(sg) THEN "dis-not-injective"
-    ELSE IF Range(sg) \cap (IdentsMust(SA) \cup IdentsMust(SB)) # {} THEN "dis-not-fresh"
-    ELSE IF Range(sg) \cap (IdentsMay(SA) \cup IdentsMay(SB)) # {} THEN "SKIP"
+    ELSE IF rng \cap (ma \cup mb) # {} THEN "dis-not-fresh"
+    ELSE IF rng \cap (ya \cup yb) # {} THEN "SKIP"
     ELSE IF \E i \in 1..Len(SB) : SB2[i].id # SB[i].id \/ Deps(SB2[i]) # Deps(SB[i])
                                  \/ SB2[i].kind # SB[i].kind THEN "dis-id-deps-kind-changed"
     ELSE IF \E i \in 1..Len(SB) : SB2[i].lhs # RenameE(SB[i].lhs, sg) THEN "dis-lhs"
     ELSE IF \E i \in 1..Len(SB) : SB2[i].rhs # RenameE(SB[i].rhs, sg) THEN "dis-rhs"
     ELSE IF \E i \in 1..Len(SB) : SB2[i].cond # RenameE(SB[i].cond, sg) THEN "dis-cond"
-    ELSE IF ClashMust(SA, SB2, flt) # {} THEN "dis-still-shared"
+    ELSE IF {x \in ma \cap IdentsMust(SB2) : Pass(flt, x)} # {} THEN "dis-still-shared"
     ELSE "OK"
 
 \* the names a failing clause is about, and why the implementation may have missed them
